@@ -502,3 +502,119 @@ func runAs(c *Ctx, as, orig string, f func(*Ctx)) {
 	}
 	c.R.Floors = append(c.R.Floors, sub.Floors...)
 }
+
+func init() {
+	p := Properties["C01"]
+	p.Rules = append(p.Rules, Rule{"C01/patterns-by-regexp-engine", ruleC01Patterns})
+}
+
+// `pattern` and `patternProperties` are decided by Go's regexp engine applied to the keyword's own text (the
+// documented deviation is the syntax, nothing else):
+//   - every regexp.Compile in the resolution closure receives the text of Schema.Pattern or a key of
+//     Schema.PatternProperties, unchanged (no anchoring, quoting, trimming);
+//   - in the evaluator, every boolean obtained from a compiled pattern is the result of a Match method of
+//     *regexp.Regexp - directly, or through a package function all of whose results are such results.
+func ruleC01Patterns(c *Ctx) {
+	const rule = "C01/patterns-by-regexp-engine"
+	isCompile := func(call *ssa.Call) bool {
+		k := core.CalleeKey(&call.Call)
+		return k == "regexp.Compile" || k == "regexp.MustCompile" || k == "regexp.CompilePOSIX" || k == "regexp.MustCompilePOSIX"
+	}
+	isMatch := func(call *ssa.Call) bool {
+		return strings.HasPrefix(core.CalleeKey(&call.Call), "regexp.Regexp.Match")
+	}
+	nc := 0
+	for _, fn := range c.Closure(rule, "RES").Sorted() {
+		if !c.P.InPkg(fn) {
+			continue
+		}
+		core.EachInstr(fn, func(i ssa.Instruction) {
+			call, ok := i.(*ssa.Call)
+			if !ok || !isCompile(call) {
+				return
+			}
+			nc++
+			okText, why := true, ""
+			for _, src := range traceSourcesDeep(call.Call.Args[0]) {
+				switch {
+				case c.mentionsField(src, "Schema.Pattern", 2):
+				case c.isRangeKeyOver(src, "Schema.PatternProperties"):
+				default:
+					okText, why = false, fmt.Sprintf("%s (%T)", src.Name(), src)
+				}
+			}
+			c.R.Check(okText, rule, core.FuncName(fn)+":compile:own-text", c.pos(call), "the compiled text is the keyword's own string, unchanged", "the regular expression compiled for pattern / patternProperties is not the keyword's text as written ("+why+"): anchoring, quoting or otherwise rewriting it changes which strings match")
+		})
+	}
+	c.R.Floor(rule, "regexp compilations in the resolution closure", nc, 1)
+	nm := 0
+	perFn := map[*ssa.Function]int{}
+	fromCompiled := func(v ssa.Value) bool {
+		for _, src := range append(traceSourcesDeep(v), v) {
+			if c.mentionsField(src, "resolvedInfo.pattern", 3) || c.isRangeKeyOver(src, "resolvedInfo.patternProperties") {
+				return true
+			}
+		}
+		return false
+	}
+	for _, fn := range c.Closure(rule, "EV").Sorted() {
+		if !c.P.InPkg(fn) {
+			continue
+		}
+		core.EachInstr(fn, func(i ssa.Instruction) {
+			call, ok := i.(*ssa.Call)
+			if !ok || call.Call.IsInvoke() || len(call.Call.Args) == 0 || !isBoolType(call.Type()) || !fromCompiled(call.Call.Args[0]) {
+				return
+			}
+			nm++
+			perFn[fn]++
+			construct := fmt.Sprintf("%s:match#%d", core.FuncName(fn), perFn[fn])
+			if isMatch(call) {
+				c.R.OK(rule, construct, c.pos(call), "decided by "+core.CalleeKey(&call.Call))
+				return
+			}
+			callee := call.Call.StaticCallee()
+			okAll, why := callee != nil && c.P.InPkg(callee), "the callee is not a regexp Match method"
+			if okAll {
+				for _, h := range c.familyFuncs(callee) {
+					if h != callee {
+						continue
+					}
+					core.EachInstr(h, func(j ssa.Instruction) {
+						ret, ok := j.(*ssa.Return)
+						if !ok || len(ret.Results) != 1 {
+							return
+						}
+						for _, src := range append(traceSources(returnedValue(ret, 0)), returnedValue(ret, 0)) {
+							switch x := src.(type) {
+							case *ssa.Const, *ssa.Phi:
+							case *ssa.Call:
+								if !isMatch(x) {
+									okAll, why = false, "a result of "+core.FuncName(callee)+" comes from "+core.CalleeKey(&x.Call)+" ("+c.pos(x)+")"
+								}
+							default:
+								okAll, why = false, fmt.Sprintf("a result of %s is not a Match result (%s)", core.FuncName(callee), c.pos(ret))
+							}
+						}
+					})
+				}
+			}
+			c.R.Check(okAll, rule, construct, c.pos(call), "every result is a result of a regexp Match method", "whether a string matches a pattern / patternProperties key is not decided by the regexp engine alone: "+why+"; a shortcut (substring search, prefix test) disagrees with the engine for some patterns, e.g. anchored literals")
+		})
+	}
+	c.R.Floor(rule, "pattern matches in the evaluator", nm, 2)
+}
+
+// isRangeKeyOver: v is the key of a range loop over the named map field.
+func (c *Ctx) isRangeKeyOver(v ssa.Value, field string) bool {
+	ex, ok := v.(*ssa.Extract)
+	if !ok || ex.Index != 1 {
+		return false
+	}
+	nx, ok := ex.Tuple.(*ssa.Next)
+	if !ok {
+		return false
+	}
+	rg, ok := nx.Iter.(*ssa.Range)
+	return ok && c.mentionsField(rg.X, field, 4)
+}
